@@ -54,7 +54,10 @@ PROPS = {
                 explanation="the optimizer is validated against a reference interpreter on generated grammars (execution); Lean proves each rewrite sound as a law of denotational PEG recognition in every context"),
     "C10": h1prop("PigeonVerif.Properties.C10", P(["val", "errs"]),
                   [("mixed", 6000, 200000), ("blocks", 3000, 60000), ("state", 2000, 50000), ("lr", 1500, 40000)],
-                  twins=twins_c10, twin_rel=rel_c10),
+                  twins=twins_c10, twin_rel=rel_c10,
+                  # what builder.go emits with and without -optimize-parser, read back and run, against the reference
+                  # evaluation of the AST: a lowering that differs between the two templates shows here
+                  tools=[("pvlower", 1200, 30000, [])]),
     "C11": h1prop("PigeonVerif.Properties.C11", P(["val", "errs"]),
                   [("panic", 3000, 90000), ("blocks", 2500, 60000), ("lr", 4000, 100000), ("utf8", 500, 10000)], oracles=[orc_c11]),
     "C12": h1prop("PigeonVerif.Properties.C12", P(["errs", "mf"]),
